@@ -305,7 +305,81 @@ func (r *throttleRaceRunner) Do(op []string) string {
 	return "ok"
 }
 
+// -- throttle with a LATE trailing timer (outside the virtual clock, one P)
+//
+//	CASE throttlelate <durationMs>
+//	late <n>   => ok | close <round> <gapMicroseconds> | none
+//
+// The virtual clock fires every timer exactly at its deadline; the Go runtime does not.  Each round arranges, on the
+// real clock and with GOMAXPROCS(1), that the callback of the trailing timer runs AFTER a direct grant that was
+// possible only because the period had already ended: Call, Next (permission 1), Call inside the period (schedules the
+// trailing timer for the end of the period), then the only P is kept busy across the deadline, Call + Next
+// (permission 2, a new period begins), and only then the timer's goroutine gets to run.  Whatever the timer does then,
+// the next permission must not be handed out within one period of permission 2.  The verdict uses bracketing only:
+// b2 = clock reading BEFORE the Next that returned permission 2 was called, e3 = reading AFTER the Next that returned
+// permission 3; the stamps `last` of the two permissions lie in between, so e3 - b2 < duration proves two permissions
+// inside one period.  A round in which no third permission arrives says nothing; `none` = no round was conclusive.
+type throttleLateRunner struct{ dur int }
+
+func (r *throttleLateRunner) Do(op []string) string {
+	if op[0] != "late" {
+		panic("harness: bad op " + op[0])
+	}
+	n := atoi(op[1])
+	old := runtime.GOMAXPROCS(1)
+	defer runtime.GOMAXPROCS(old)
+	D := c20ms(r.dur)
+	begin := time.Now()
+	conclusive := 0
+	for i := 0; i < n; i++ {
+		if time.Since(begin) > hangLimit/4 {
+			break
+		}
+		th := gogu.NewThrottle(D, true)
+		start := time.Now()
+		spinUntil := func(d time.Duration) {
+			for time.Since(start) < d {
+			}
+		}
+		th.Call()
+		if !th.Next() { // permission 1
+			return "false " + itoa(i)
+		}
+		spinUntil(D / 12)
+		th.Call() // inside the period: the trailing timer is set for the end of the period
+		time.Sleep(D * 3 / 4)
+		spinUntil(D + D/40 + time.Millisecond) // the only P stays busy across the deadline: the timer runs late
+		th.Call()                              // a direct grant: more than one period since permission 1
+		b2 := time.Now()
+		if !th.Next() { // permission 2
+			return "false " + itoa(i)
+		}
+		time.Sleep(D / 8) // now the late timer callback runs
+		done := make(chan time.Time, 1)
+		go func() {
+			if th.Next() {
+				done <- time.Now()
+			}
+		}()
+		select {
+		case e3 := <-done:
+			conclusive++
+			if gap := e3.Sub(b2); gap < D {
+				th.Cancel()
+				return "close " + itoa(i) + " " + itoa(int(gap/time.Microsecond))
+			}
+		case <-time.After(2 * D):
+		}
+		th.Cancel()
+	}
+	if conclusive == 0 {
+		return "none"
+	}
+	return "ok"
+}
+
 func init() {
+	kinds["throttlelate"] = func(p []string) Runner { return &throttleLateRunner{dur: atoi(p[0])} }
 	kinds["throttlerace"] = func(p []string) Runner { return &throttleRaceRunner{trailing: s2b(p[0])} }
 	for _, k := range []string{"debounce", "delay", "throttle"} {
 		timedKinds[k] = true
@@ -490,6 +564,16 @@ func genC20(g *Gen) {
 				ops = append(ops, "race 2000")
 			}
 			g.Emit("throttlerace", []string{tr}, ops)
+		}
+	}
+	// ---- throttle: a trailing timer that runs late (real clock, one P) -------------------------------
+	for _, d := range []int{40, 24} {
+		if g.Mine() {
+			rounds := "6"
+			if g.Thorough() {
+				rounds = "40"
+			}
+			g.Emit("throttlelate", []string{itoa(d)}, []string{"late " + rounds})
 		}
 	}
 	// ---- throttle -------------------------------------------------------------------------------
